@@ -1,6 +1,7 @@
 package t_p2p
 
 import (
+	"sort"
 	"bytes"
 	"context"
 	"fmt"
@@ -29,7 +30,7 @@ import (
 
 const c12 = "C12"
 const c12rule = "(1) filter level: generated sequences of broadcast requests over a small slot space (instances 1..3 x rounds {0,1,5,6,7,13} x phases QUALITY/PREPARE/COMMIT x 2 senders x 2 signatures) interleaved with receives from other peers and restarts, a restart being a new filter re-armed by replaying the accepted log in file order or in a permuted order; " +
-	"(2) node level: a real F3 node (real WAL directory, real certstore, own gossipsub over an in-process libp2p host, model EC, mock clock) driven through the public F3.Broadcast with possibly conflicting validly signed messages, rebroadcast requests, graceful restarts (Stop/New/Start on the same datastore and disk path) and abrupt restarts (node abandoned without Stop, new node on the same datastore and path, optionally with another EC head). A pubsub RawTracer on the node's own PubSub records every message the node hands to the network at the moment of publication. " +
+	"(2) node level: a real F3 node (real WAL directory, real certstore, own gossipsub over an in-process libp2p host, model EC, mock clock) driven through the public F3.Broadcast with possibly conflicting validly signed messages, rebroadcast requests, graceful restarts (Stop/New/Start on the same datastore and disk path) and abrupt restarts (node abandoned without Stop, new node on the same datastore and path, optionally with another EC head, optionally with a strict prefix of a record left at the end of the newest WAL file: the process died inside an append). A pubsub RawTracer on the node's own PubSub records every message the node hands to the network at the moment of publication. " +
 	"Invariants over the whole history: per (instance, sender, round, step) at most one distinct signature; no message for an instance older than one already broadcast; at publication time the message is decodable from the WAL directory by a fresh reader. Non-trivial = history with a conflicting request after a restart, or a request for an older instance, or a rebroadcast after a restart; distinct by digest of the trace"
 
 type slot struct {
@@ -70,6 +71,11 @@ func filterSequence(t *rapid.T) {
 			switch rapid.SampledFrom([]string{"broadcast", "broadcast", "broadcast", "receive", "restart"}).Draw(t, "action") {
 			case "broadcast":
 				m := mk()
+				if len(log) > 0 && rapid.IntRange(0, 2).Draw(t, "conflictwithlogged") == 0 {
+					// a request for a slot that is already on the wire, signed differently
+					prev := log[rapid.IntRange(0, len(log)-1).Draw(t, "loggedidx")]
+					m = &gpbft.GMessage{Sender: prev.Sender, Vote: prev.Vote, Signature: []byte{prev.Signature[0] ^ 1}}
+				}
 				k := slot{m.Vote.Instance, m.Sender, m.Vote.Round, m.Vote.Phase}
 				if haveMax && m.Vote.Instance < maxInst {
 					olderRequests++
@@ -316,13 +322,37 @@ func TestC12Node(t *testing.T) {
 			vgen.Chain(base, &gpbft.TipSet{Epoch: 3, Key: []byte("value-b"), PowerTable: vgen.DetCid("vb")}),
 		}
 		var trace []string
-		restarts, conflictAfterRestart, olderAfter, rebroadcastAfterRestart := 0, 0, 0, 0
+		restarts, conflictAfterRestart, olderAfter, rebroadcastAfterRestart, tornTails := 0, 0, 0, 0, 0
 		requested := map[slot]map[string]bool{}
+		var history []struct {
+			sender uint64
+			p      gpbft.Payload
+		}
 		var maxRequested uint64
 		steps := rapid.IntRange(2, 12).Draw(t, "steps")
 		for s := 0; s < steps; s++ {
-			action := rapid.SampledFrom([]string{"broadcast", "broadcast", "broadcast", "broadcast", "rebroadcast", "restart", "crash-restart"}).Draw(t, "action")
+			action := rapid.SampledFrom([]string{"broadcast", "broadcast", "broadcast", "broadcast", "rebroadcast", "restart", "crash-restart", "torn-crash-restart"}).Draw(t, "action")
 			switch action {
+			case "torn-crash-restart":
+				// the process dies in the middle of a WAL append: a strict prefix of a record is
+				// left at the end of the newest log file; the old node is abandoned
+				if names, _ := filepath.Glob(filepath.Join(walDir, "*.wal.cbor")); len(names) > 0 {
+					sort.Strings(names)
+					newest := names[len(names)-1]
+					if content, err := os.ReadFile(newest); err == nil && len(content) > 16 {
+						k := rapid.IntRange(1, 12).Draw(t, "tornbytes")
+						fh, err := os.OpenFile(newest, os.O_WRONLY|os.O_APPEND, 0o666)
+						if err != nil {
+							t.Fatalf("HARNESS: %v", err)
+						}
+						_, _ = fh.Write(content[:k])
+						_ = fh.Close()
+						tornTails++
+					}
+				}
+				cur = start("crash restart after a torn WAL append")
+				restarts++
+				trace = append(trace, "torn-crash-restart")
 			case "broadcast":
 				sender := uint64(rapid.IntRange(1, 2).Draw(t, "sender"))
 				p := gpbft.Payload{
@@ -342,6 +372,23 @@ func TestC12Node(t *testing.T) {
 					// commitments instead (still validly signed, still conflicting)
 					p.SupplementalData.Commitments[0] = byte(rapid.IntRange(0, 1).Draw(t, "commitvariant"))
 				}
+				// after a restart, half of the requests conflict with an earlier request of the same
+				// slot (same instance, sender, round, step; the other value)
+				if restarts > 0 && len(history) > 0 && rapid.Bool().Draw(t, "conflictwithearlier") {
+					h := history[rapid.IntRange(0, len(history)-1).Draw(t, "earlier")]
+					sender, p = h.sender, h.p
+					if p.Phase == gpbft.COMMIT_PHASE {
+						p.SupplementalData.Commitments[0] ^= 1
+					} else if p.Value == values[0] {
+						p.Value = values[1]
+					} else {
+						p.Value = values[0]
+					}
+				}
+				history = append(history, struct {
+					sender uint64
+					p      gpbft.Payload
+				}{sender, p})
 				sb := &gpbft.SignatureBuilder{NetworkName: m.NetworkName, ParticipantID: gpbft.ActorID(sender), Payload: p, PubKey: vcrypto.PubKey(sender), PayloadToSign: p.MarshalForSigning(m.NetworkName)}
 				sig := vcrypto.RawSign(sb.PubKey, sb.PayloadToSign)
 				k := slot{p.Instance, gpbft.ActorID(sender), p.Round, p.Phase}
@@ -433,7 +480,7 @@ func TestC12Node(t *testing.T) {
 		npub := len(rec.pubs)
 		rec.mu.Unlock()
 		nt := conflictAfterRestart > 0 || olderAfter > 0 || rebroadcastAfterRestart > 0
-		vev.Case(c12, vev.Digest("node", fmt.Sprint(trace)), nt, "node-history", fmt.Sprintf("node-restarts>0:%v", restarts > 0), fmt.Sprintf("node-conflict-after-restart:%v", conflictAfterRestart > 0), fmt.Sprintf("node-older-instance-after-restart:%v", olderAfter > 0), fmt.Sprintf("node-published>0:%v", npub > 0))
+		vev.Case(c12, vev.Digest("node", fmt.Sprint(trace)), nt, "node-history", fmt.Sprintf("node-restarts>0:%v", restarts > 0), fmt.Sprintf("node-conflict-after-restart:%v", conflictAfterRestart > 0), fmt.Sprintf("node-older-instance-after-restart:%v", olderAfter > 0), fmt.Sprintf("node-published>0:%v", npub > 0), fmt.Sprintf("node-torn-wal-tail:%v", tornTails > 0))
 		vev.Sample(c12, func() any { return map[string]any{"kind": "node-history", "trace": trace, "publications": npub} })
 	})
 }
